@@ -1,7 +1,7 @@
 (* Wire.v -- decoding of requests and encoding of answers (integers and lists
    only), and the dispatcher run : sx -> sx that the extracted driver and the
    vm_compute cross-check both call. *)
-From SV Require Export Model.Expr.
+From SV Require Export Model.Num Model.Expr.
 Open Scope Q_scope.
 
 Fixpoint sx_eqb (x y : sx) : bool :=
@@ -209,6 +209,15 @@ Definition run (req : sx) : sx :=
       | 39%nat, [js] =>
           match d_listx d_jordan js with
           | Some js => e_res e_shape (shape_from_jordans js) | _ => bad end
+      | 40%nat, [q] =>
+          match d_Q q with
+          | Some q => match norm_coord q with Some r => L [A 0%Z; e_Q r] | None => L [A 2%Z] end
+          | None => bad end
+      | 41%nat, [x; y; z] =>
+          match d_Z x, d_Z y, d_Z z with
+          | Some n, Some m, Some d =>
+              match limit_den n m d with Some (a, b) => L [A 0%Z; A a; A b] | None => L [A 2%Z] end
+          | _, _, _ => bad end
       | _, _ => bad
       end
   | _ => bad
